@@ -115,6 +115,8 @@ struct Ctx {
 	funding: OutPoint, revoked_txid: Txid, me: Cmt,
 	/// every second-stage transaction the cheater holds for the revoked commitment (model index = position)
 	cand: Vec<Transaction>, cand_ids: Vec<Txid>,
+	/// unrelated transactions mined between the interesting ones (they must not confuse the block filter); not part of the model ops
+	noise: BTreeSet<Txid>,
 	prevouts: HashMap<OutPoint, TxOut>,
 	/// every victim broadcast with the height at which it was seen; `[..evicted]` have left the mempool
 	bcast: Vec<(u32, Transaction)>, evicted: usize,
@@ -150,6 +152,23 @@ impl Ctx {
 		if self.soft_kinds.insert((kind, tagged)) { let m = format!("{} — history (seed {}, {}): {}", what, self.seed, self.style, hist_show()); self.soft.push(m); } }
 	fn fail_for(&mut self, about: &OutPoint, what: String) { let what = if self.kf1.contains(about) { format!("{}: {}", KF1, what) } else { what }; self.fail(what) }
 	fn fail(&mut self, what: String) { let m = format!("{} — history (seed {}, {}): {}", what, self.seed, self.style, hist_show()); if self.oracle.len() < 6 { self.oracle.push(m); } }
+	/// input by input: the commitment output it spends (with the 5-element witness of an HTLC transaction), `x` for anything else
+	fn inputs_tok(&self, t: &Transaction) -> String { t.input.iter().map(|i| if i.previous_output.txid == self.revoked_txid && i.witness.len() == 5 { i.previous_output.vout.to_string() } else { "x".to_string() }).collect::<Vec<_>>().join("+") }
+	fn layout_class(&self, t: &Transaction, same_block: bool) -> String {
+		let toks: Vec<bool> = t.input.iter().map(|i| i.previous_output.txid == self.revoked_txid && i.witness.len() == 5).collect();
+		let n = toks.iter().filter(|b| **b).count();
+		let fee = match toks.iter().position(|b| !*b) { None => "none", Some(0) => "first", Some(p) if p + 1 == toks.len() => "last", Some(_) => "middle" };
+		format!("second-stage:{}:htlc-inputs{}:fee-input-{}", if same_block { "same-block-as-commitment" } else { "later-block" }, n.min(3), fee)
+	}
+	fn noise_tx(&mut self, rng: &mut Rng) -> Transaction {
+		use bitcoin::{absolute::LockTime, transaction::Version, Amount, ScriptBuf, Sequence, TxIn, Witness};
+		let mut id = [0u8; 32]; id[0] = 0xaa; id[2..10].copy_from_slice(&rng.next().to_le_bytes());
+		let t = Transaction { version: Version::TWO, lock_time: LockTime::ZERO,
+			input: vec![TxIn { previous_output: OutPoint { txid: Txid::from_raw_hash(bitcoin::hashes::Hash::from_byte_array(id)), vout: 1 }, script_sig: ScriptBuf::new(), sequence: Sequence::MAX, witness: Witness::new() }],
+			output: vec![TxOut { value: Amount::from_sat(1234), script_pubkey: ScriptBuf::new_op_return(&[]) }] };
+		self.noise.insert(t.compute_txid());
+		t
+	}
 	/// model token of a transaction in a block: `C`, `S<k>`, `J<op>+<op>…`
 	fn tx_tok(&self, t: &Transaction) -> String {
 		let id = t.compute_txid();
@@ -249,8 +268,9 @@ impl Ctx {
 	fn connect(&mut self, net: &Net, txs: Vec<Transaction>, class: &str) {
 		let node = &net.nodes[0];
 		let h = node.best_block_info().1 + 1;
-		let toks = list_or_dash(txs.iter().map(|t| self.tx_tok(t)).collect(), ",");
-		hist_push(format!("connect@{}[{}]", h, toks));
+		let toks = list_or_dash(txs.iter().filter(|t| !self.noise.contains(&t.compute_txid())).map(|t| self.tx_tok(t)).collect(), ",");
+		// the block layout as mined: every transaction in order, second-stage transactions with their input list
+		hist_push(format!("connect@{}[{}]", h, list_or_dash(txs.iter().map(|t| { let id = t.compute_txid(); if self.noise.contains(&id) { "noise".to_string() } else if let Some(k) = self.cand_ids.iter().position(|x| *x == id) { format!("S{}(inputs {})", k, self.inputs_tok(t)) } else { self.tx_tok(t) } }).collect(), ",")));
 		// a claim regenerated after its parent re-confirms starts from a fresh feerate
 		if txs.iter().any(|t| { let id = t.compute_txid(); id == self.revoked_txid || self.cand_ids.contains(&id) }) { self.last_fee.clear(); }
 		let block = create_dummy_block(node.best_block_hash(), h + self.fork_id * 100_000, txs);
@@ -336,6 +356,7 @@ impl Ctx {
 		let p_c = if c_gone { rng.below(n_new.min(3) as u64) as usize } else { 0 };
 		for t in gone.iter() {
 			let id = t.compute_txid();
+			if self.noise.contains(&id) { continue; }
 			if id == self.revoked_txid { slots[p_c].push(t.clone()); }
 			else if self.cand_ids.contains(&id) { if rng.chance(3, 4) { slots[rng.range(p_c as u64, n_new as u64 - 1) as usize].push(t.clone()); } else { self.classes.push("reorg:second-stage-dropped".into()); } }
 			else if rng.chance(1, 3) { slots[rng.range(p_c as u64, n_new as u64 - 1) as usize].push(t.clone()); self.classes.push("reorg:justice-reincluded".into()); }
@@ -348,12 +369,17 @@ impl Ctx {
 			let (_, conf2, spent2) = chain_view(&net.nodes[0]);
 			let mut txs: Vec<Transaction> = vec![]; let mut here: BTreeSet<Txid> = BTreeSet::new(); let mut used: BTreeSet<OutPoint> = BTreeSet::new();
 			let rank = |s: &Ctx, t: &Transaction| { let id = t.compute_txid(); if id == s.revoked_txid { 0 } else if s.cand_ids.contains(&id) { 1 } else { 2 } };
-			let mut slot = slot; slot.sort_by_key(|t| rank(self, t));
+			// every order the chain allows: parents first, otherwise shuffled
+			let mut slot = slot;
+			for i in (1..slot.len()).rev() { let j = rng.below(i as u64 + 1) as usize; slot.swap(i, j); }
+			slot.sort_by_key(|t| rank(self, t));
 			for t in slot {
 				let id = t.compute_txid();
 				if conf2.contains_key(&id) || here.contains(&id) { continue; }
-				let ok = if id == self.revoked_txid { true } else { t.input.iter().filter(|i| self.tag(&i.previous_output).is_some() || id != self.revoked_txid).all(|i| (conf2.contains_key(&i.previous_output.txid) || here.contains(&i.previous_output.txid)) && !spent2.contains_key(&i.previous_output) && !used.contains(&i.previous_output)) };
-				if ok { for i in &t.input { used.insert(i.previous_output); } here.insert(id); txs.push(t); }
+				let ok = if id == self.revoked_txid { true } else { t.input.iter().filter(|i| i.previous_output.txid == self.revoked_txid || self.cand_ids.contains(&i.previous_output.txid)).all(|i| (conf2.contains_key(&i.previous_output.txid) || here.contains(&i.previous_output.txid)) && !spent2.contains_key(&i.previous_output) && !used.contains(&i.previous_output)) };
+				if ok { for i in &t.input { used.insert(i.previous_output); }
+					if self.cand_ids.contains(&id) { let c = self.layout_class(&t, here.contains(&self.revoked_txid)); self.classes.push(c); }
+					here.insert(id); txs.push(t); }
 			}
 			self.connect(net, txs, &format!("reorg:{}:branch", cat));
 			if !self.oracle.is_empty() { return Ok(true); }
@@ -416,6 +442,65 @@ impl Ctx {
 	}
 }
 
+/// The cheater's second-stage transactions that `unsafe_get_latest_holder_commitment_txn` does not give: built from the HTLC descriptors of
+/// its CURRENT commitment (hook `verif_holder_htlc_descriptors`, preimages of every payment of the run supplied) and signed by its own signer
+/// while that commitment is still unrevoked.  Anchor channels: HTLC-timeout / HTLC-success transactions with one HTLC or several aggregated
+/// (same nLockTime), with an extra fee input placed BEFORE, BETWEEN or AFTER the HTLC inputs or without one (input i <-> output i as
+/// SIGHASH_SINGLE requires).  Legacy channels: the HTLC-success transactions of received HTLCs whose preimage the monitor did not know.
+/// The fee input spends a made-up outpoint (nobody verifies the cheater's transactions; the victim's spends of their outputs ARE verified).
+fn build_second_stage(net: &Net, cheater: usize, chan_id: lightning::ln::types::ChannelId, anchors: bool, rng: &mut Rng, have: &[Transaction]) -> Result<Vec<Transaction>, String> {
+	use bitcoin::{absolute::LockTime, transaction::Version, Amount, ScriptBuf, Sequence, TxIn, Witness};
+	use lightning::sign::ecdsa::EcdsaChannelSigner;
+	use lightning::sign::SignerProvider;
+	let secp = bitcoin::secp256k1::Secp256k1::new();
+	let extra: Vec<_> = net.pays.iter().map(|p| (p.hash, p.preimage)).collect();
+	let mut descs = {
+		let mon = net.nodes[cheater].chain_monitor.chain_monitor.get_monitor(chan_id).map_err(|_| "no cheater monitor")?;
+		mon.verif_holder_htlc_descriptors(&extra)
+	};
+	let taken: BTreeSet<OutPoint> = have.iter().flat_map(|t| t.input.iter().map(|i| i.previous_output)).collect();
+	descs.retain(|d| !taken.contains(&d.outpoint()));
+	if !anchors { descs.retain(|d| !d.htlc.offered); }
+	// shuffle, then cut into groups of equal nLockTime
+	for i in (1..descs.len()).rev() { let j = rng.below(i as u64 + 1) as usize; descs.swap(i, j); }
+	let lock = |d: &lightning::sign::HTLCDescriptor| if d.htlc.offered { d.htlc.cltv_expiry } else { 0 };
+	let mut groups: Vec<Vec<lightning::sign::HTLCDescriptor>> = vec![];
+	for d in descs {
+		let join = anchors && rng.chance(1, 2) && groups.last().map(|g| g.len() < 3 && lock(&g[0]) == lock(&d)).unwrap_or(false);
+		if join { groups.last_mut().unwrap().push(d); } else { groups.push(vec![d]); }
+	}
+	let mut out = vec![];
+	for (gi, g) in groups.into_iter().enumerate() {
+		// position of the fee input among the HTLC inputs (None: no fee input)
+		let fee_pos: Option<usize> = if !anchors { None } else { match rng.below(4) { 0 => None, 1 => Some(0), 2 => Some(g.len()), _ => Some(rng.below(g.len() as u64 + 1) as usize) } };
+		let mut tx = Transaction { version: Version::TWO, lock_time: LockTime::from_consensus(lock(&g[0])), input: vec![], output: vec![] };
+		let mut where_: Vec<usize> = vec![];
+		for (i, d) in g.iter().enumerate() {
+			if fee_pos == Some(i) {
+				let mut id = [0u8; 32]; id[0] = 0xfe; id[1] = gi as u8; id[2..10].copy_from_slice(&rng.next().to_le_bytes());
+				tx.input.push(TxIn { previous_output: OutPoint { txid: Txid::from_raw_hash(bitcoin::hashes::Hash::from_byte_array(id)), vout: 0 }, script_sig: ScriptBuf::new(), sequence: Sequence::ENABLE_RBF_NO_LOCKTIME, witness: Witness::new() });
+				tx.output.push(TxOut { value: Amount::from_sat(50_000), script_pubkey: ScriptBuf::new_op_return(&[]) });
+			}
+			where_.push(tx.input.len());
+			tx.input.push(d.unsigned_tx_input());
+			tx.output.push(d.tx_output(&secp));
+		}
+		if fee_pos == Some(g.len()) {
+			let mut id = [0u8; 32]; id[0] = 0xfe; id[1] = gi as u8; id[2..10].copy_from_slice(&rng.next().to_le_bytes());
+			tx.input.push(TxIn { previous_output: OutPoint { txid: Txid::from_raw_hash(bitcoin::hashes::Hash::from_byte_array(id)), vout: 0 }, script_sig: ScriptBuf::new(), sequence: Sequence::ENABLE_RBF_NO_LOCKTIME, witness: Witness::new() });
+			tx.output.push(TxOut { value: Amount::from_sat(50_000), script_pubkey: ScriptBuf::new_op_return(&[]) });
+		}
+		for (i, d) in g.iter().enumerate() {
+			let signer = net.nodes[cheater].keys_manager.derive_channel_signer(d.channel_derivation_parameters.keys_id);
+			let sig = signer.sign_holder_htlc_transaction(&tx, where_[i], d, &secp).map_err(|_| "cheater's signer refused an HTLC transaction")?;
+			let ws = d.witness_script(&secp);
+			tx.input[where_[i]].witness = d.tx_input_witness(&sig, &ws);
+		}
+		out.push(tx);
+	}
+	Ok(out)
+}
+
 fn justice_scenario(seed: u64, thorough: bool, index: u64) -> Result<Outcome, String> {
 	let mut rng = Rng::new(seed);
 	HIST.with(|h| h.borrow_mut().clear());
@@ -460,6 +545,7 @@ fn justice_scenario(seed: u64, thorough: bool, index: u64) -> Result<Outcome, St
 		let mon = net.nodes[cheater].chain_monitor.chain_monitor.get_monitor(chan_id).map_err(|_| "no cheater monitor")?;
 		mon.unsafe_get_latest_holder_commitment_txn(&net.nodes[cheater].logger)
 	};
+	let built = build_second_stage(&net, cheater, chan_id, anchors, &mut rng, &captured[1..])?;
 	for _ in 0..n_after { do_update(&mut net, &mut rng, &mut pending); }
 	let revoked_tx = captured[0].clone();
 	let revoked_txid = revoked_tx.compute_txid();
@@ -507,25 +593,32 @@ fn justice_scenario(seed: u64, thorough: bool, index: u64) -> Result<Outcome, St
 	let _ = net.nodes[victim].chain_monitor.chain_monitor.get_and_clear_pending_events();
 	let mut prevouts: HashMap<OutPoint, TxOut> = HashMap::new();
 	for (i, o) in revoked_tx.output.iter().enumerate() { prevouts.insert(OutPoint { txid: revoked_txid, vout: i as u32 }, o.clone()); }
-	let cand: Vec<Transaction> = captured.iter().skip(1).cloned().collect();
+	let cand: Vec<Transaction> = captured.iter().skip(1).cloned().chain(built.into_iter()).collect();
 	for t in &cand { let id = t.compute_txid(); for (i, o) in t.output.iter().enumerate() { prevouts.insert(OutPoint { txid: id, vout: i as u32 }, o.clone()); } }
 	let cand_ids: Vec<Txid> = cand.iter().map(|t| t.compute_txid()).collect();
 	let outs_tok = list_or_dash(me.outs.iter().map(|(v, k)| format!("{}:{}", v, k)).collect(), ",");
-	let spends_of = |t: &Transaction| t.input.iter().filter(|i| i.previous_output.txid == revoked_txid).map(|i| i.previous_output.vout.to_string()).collect::<Vec<_>>().join("+");
-	let mut cx = Ctx { seed, style: format!("{:?}", style), chan_id, lax, disconnected_once: false, funding: revoked_tx.input[0].previous_output, revoked_txid, me: me.clone(), cand: cand.clone(), cand_ids,
+	// input by input: the commitment output it spends (with the 5-element witness of an HTLC transaction), `x` for anything else
+	let spends_of = |t: &Transaction| t.input.iter().map(|i| if i.previous_output.txid == revoked_txid && i.witness.len() == 5 { i.previous_output.vout.to_string() } else { "x".to_string() }).collect::<Vec<_>>().join("+");
+	let plain = |t: &Transaction| t.input.iter().all(|i| i.previous_output.txid == revoked_txid && i.witness.len() == 5);
+	let mut cx = Ctx { seed, style: format!("{:?}", style), chan_id, lax, disconnected_once: false, funding: revoked_tx.input[0].previous_output, revoked_txid, me: me.clone(), cand: cand.clone(), cand_ids, noise: BTreeSet::new(),
 		prevouts, bcast: vec![], evicted: 0, last_issue: BTreeMap::new(), last_fee: BTreeMap::new(), spendable: BTreeMap::new(), to_remote: BTreeMap::new(), final_txs: BTreeSet::new(), max_conf: BTreeMap::new(), kf1: BTreeSet::new(), kf1_style: matches!(style, ConnectStyle::TransactionsFirstReorgsOnlyTip), issue_height_override: None, fork_id: 0,
 		stream: Stream::default(), oracle: vec![], soft: vec![], soft_kinds: BTreeSet::new(), classes: vec![], stale_seen: 0 };
 	hist_push(format!("{:?}: {} channel, revoked commitment {} ({} outputs: {}), {} second-stage txs held by the cheater, tip {}", style, if anchors { "anchor" } else { "legacy" }, me.n, me.outs.len(), outs_tok, cand.len(), net.nodes[victim].best_block_info().1));
 	// the chain model starts here: `chain <tip> <n> <outs> <every second-stage tx: the commitment outputs it spends>`
 	cx.stream.lines.push((format!("chain {} {} {} {}", net.nodes[victim].best_block_info().1, me.n, outs_tok, list_or_dash(cand.iter().map(|t| spends_of(t)).collect(), ",")), None, String::new()));
-	let with_second_in_same_block = !cand.is_empty() && rng.chance(1, 8);
+	let with_second_in_same_block = !cand.is_empty() && rng.chance(1, 3);
 	// a random subset of the cheater's second-stage transactions confirms
 	let mut second: Vec<Transaction> = vec![];
 	for t in cand.iter() { if rng.chance(1, 2) { second.push(t.clone()); } }
 	let rounds = rng.below(4);
 	let old_flow = rounds == 0 && !with_second_in_same_block;
+	// the order among the second-stage transactions is drawn too (parents first is all the chain requires)
+	for i in (1..second.len()).rev() { let j = rng.below(i as u64 + 1) as usize; second.swap(i, j); }
 	let mut first_block = vec![revoked_tx.clone()];
-	if with_second_in_same_block { first_block.extend(second.iter().cloned()); }
+	if with_second_in_same_block {
+		for t in second.iter() { if rng.chance(1, 4) { let n = cx.noise_tx(&mut rng); first_block.push(n); } first_block.push(t.clone()); let c = cx.layout_class(t, true); cx.classes.push(c); }
+	}
+	if rng.chance(1, 6) { let n = cx.noise_tx(&mut rng); first_block.insert(0, n); }
 	cx.connect(&net, first_block, "chain:commitment");
 	let close_height = net.nodes[victim].best_block_info().1;
 	let show = |set: &BTreeSet<(u8, u32, u32)>| list_or_dash(set.iter().map(|t| if t.0 == 0 { format!("c{}", t.2) } else { format!("s{}:{}", t.1, t.2) }).collect(), " ");
@@ -542,6 +635,7 @@ fn justice_scenario(seed: u64, thorough: bool, index: u64) -> Result<Outcome, St
 		if !with_second_in_same_block {
 			cx.connect_empty(&net, rng.below(3) as u32);
 			if !second.is_empty() {
+				for t in second.iter() { let c = cx.layout_class(t, false); cx.classes.push(c); }
 				if second.len() > 1 && rng.chance(1, 3) { let (a, b) = second.split_at(1); cx.connect(&net, a.to_vec(), "chain:second"); cx.connect(&net, b.to_vec(), "chain:second"); }
 				else { cx.connect(&net, second.clone(), "chain:second"); }
 			}
@@ -564,7 +658,9 @@ fn justice_scenario(seed: u64, thorough: bool, index: u64) -> Result<Outcome, St
 					if i.previous_output.txid == revoked_txid { set_b.insert((0, 0, i.previous_output.vout)); }
 					else if let Some(k) = second_ids.iter().position(|x| *x == i.previous_output.txid) { set_b.insert((1, k as u32, i.previous_output.vout)); } } }
 				let sec_tok = second.iter().map(|t| spends_of(t)).collect::<Vec<_>>().join(",");
-				cx.stream.lines.push((format!("confirm {} {} {}", me.n, outs_tok, sec_tok), Some(show(&set_b)), out.class.clone()));
+				// the claim-set op of Model/Punish.lean numbers the claims on a second-stage transaction by input position: compared when
+				// every input is an HTLC input (the chain ops above cover the layouts with fee inputs)
+				if second.iter().all(|t| plain(t)) { cx.stream.lines.push((format!("confirm {} {} {}", me.n, outs_tok, sec_tok), Some(show(&set_b)), out.class.clone())); }
 				// coverage: every non-victim, non-anchor output is claimed, directly or through its confirmed second-stage child
 				for (i, (_, k)) in me.outs.iter().enumerate() {
 					if *k == 'L' || *k == 'H' {
